@@ -146,8 +146,49 @@ type c18Named struct {
 	M  map[string]c18Hash `json:"m"`
 }
 
+// indirect recursion (the cycle is noticed inside the other type), a struct without tagged fields used as a field, an embedded
+// struct whose tag has options but no name (encoding/json flattens it), fields hidden by a shallower untagged field of the same name,
+// a tagged and an untagged field of one name at the same depth
+type c18IndA struct {
+	B *c18IndB `json:"b,omitempty"`
+	X int      `json:"x"`
+}
+type c18IndB struct {
+	A *c18IndA `json:"a,omitempty"`
+	X string   `json:"x"`
+}
+type c18Empty struct{}
+type c18HoldsEmpty struct {
+	E c18Empty   `json:"e"`
+	L []c18Empty `json:"l"`
+}
+type c18InnerSame struct {
+	InnerSame int `json:"InnerSame"`
+}
+type c18OuterOmit struct {
+	c18InnerSame `json:",omitempty"`
+	N            int `json:"n"`
+}
+type c18DomInner struct {
+	X string `json:"X"`
+	Y int    `json:"Y"`
+}
+type c18DomOuter struct {
+	c18DomInner
+	X int
+}
+type c18DomA struct{ X int }
+type c18DomB struct {
+	X string `json:"X"`
+}
+type c18DomBA struct {
+	c18DomB
+	c18DomA
+}
+
 func c18StaticTypes() []reflect.Type {
 	return []reflect.Type{
+		reflect.TypeOf(c18IndA{}), reflect.TypeOf(c18IndB{}), reflect.TypeOf([]c18IndA{}), reflect.TypeOf(c18HoldsEmpty{}), reflect.TypeOf(c18OuterOmit{}), reflect.TypeOf(c18DomOuter{}), reflect.TypeOf(c18DomBA{}),
 		reflect.TypeOf(c18Named{}), reflect.TypeOf([]c18Level{}), reflect.TypeOf(c18Levels{}), reflect.TypeOf(c18Hash{}), reflect.TypeOf([]c18Hash{}), reflect.TypeOf(map[string][]c18Level{}),
 		reflect.TypeOf(c18Dict{}), reflect.TypeOf([]c18Name{}), reflect.TypeOf([]*c18Level{}),
 		reflect.TypeOf(c18GTree[int]{}), reflect.TypeOf(c18GTree[string]{}), reflect.TypeOf(c18GPair[string, uint8]{}), reflect.TypeOf(c18GBox[c18Leaf]{}), reflect.TypeOf([]c18GTree[float64]{}),
